@@ -124,6 +124,79 @@ func matrix() []Case {
 			}
 		}
 	}
+	// D: the provider's life. Every token kind in either role, (1) obtained on one host of a provider with a host-derived
+	// issuer and presented on the other, the other host / this host having served a request of that kind first or not,
+	// and (2) minted before / after each kind of key change of the storage and presented after it, again (the very token)
+	// or for the first time.
+	live := []TokSpec{
+		{Kind: "jwt", State: "live", Owner: "self", User: "u1", Declared: "access"},
+		{Kind: "id", State: "live", Owner: "other", User: "u1", Declared: "id"},
+		{Kind: "opaque", State: "live", Owner: "other", User: "u1", Declared: "access"},
+		{Kind: "refresh", State: "live", Owner: "self", User: "u1", Declared: "refresh"},
+	}
+	// place puts the token into its role of exchange idx; an actor token comes with a subject token minted there and then
+	place := func(st *Step, tok TokSpec, role, idx int) {
+		if role == 0 {
+			st.Subject = tok
+			return
+		}
+		st.Subject = good[0]
+		st.Subject.MintHost, st.Subject.Born = st.Host, idx
+		st.Actor = &tok
+	}
+	for _, router := range routers {
+		for _, tok := range live {
+			for role := 0; role < 2; role++ {
+				for first := 0; first < 3; first++ { // which host serves a token of this kind first: 0 / 1 / nobody (single exchange)
+					for mintHost := 0; mintHost < 2; mintHost++ {
+						n++
+						c := baseCase(router)
+						c.Break, c.Shape, c.Hosts, c.Requested, c.IssueJWT = "sweep-hosts", "hosts-seq", true, "access", n%2 == 0
+						tk := tok
+						tk.MintHost = mintHost
+						last := Step{Host: 0, Requested: "access"}
+						place(&last, tk, role, 1)
+						if first == 2 {
+							c.Shape = "hosts"
+							c.Host, c.Subject, c.Actor = last.Host, last.Subject, last.Actor
+						} else {
+							warm := tok
+							warm.MintHost = first
+							c.Host, c.Subject = first, warm
+							c.More = []Step{last}
+						}
+						out = append(out, c)
+					}
+				}
+				for _, op := range keyOps[2:] {
+					for _, pre := range []string{"", "rotate-keep"} {
+						for variant := 0; variant < 3; variant++ { // the first exchange's token again / another one minted before the change / one minted after it
+							n++
+							c := baseCase(router)
+							c.Break, c.Shape, c.Requested, c.IssueJWT = "sweep-keys", "seq", "access", n%2 == 0
+							c.Subject = tok
+							tk := tok
+							last := Step{KeyOp: op, Requested: "access"}
+							idx := 1
+							if pre != "" {
+								c.More = append(c.More, Step{KeyOp: pre, Subject: tok, Requested: "id"})
+								idx = 2
+							}
+							switch variant {
+							case 0:
+								tk.Replay = 1
+							case 2:
+								tk.Born = idx
+							}
+							place(&last, tk, role, idx)
+							c.More = append(c.More, last)
+							out = append(out, c)
+						}
+					}
+				}
+			}
+		}
+	}
 	// C: client authentication
 	for _, router := range routers {
 		for _, method := range []string{"client_secret_basic", "client_secret_post", "none", "private_key_jwt"} {
@@ -154,5 +227,5 @@ func TestMatrix(t *testing.T) {
 		}
 	}
 	rec.SetExtra("sweep_cases", len(cases))
-	rec.SetExtra("sweep_exhaustive_over", "token kind/state x declared type x role x router; subject x actor x requested x default x format x router; auth method x credential x router")
+	rec.SetExtra("sweep_exhaustive_over", "token kind/state x declared type x role x router; subject x actor x requested x default x format x router; auth method x credential x router; token kind x role x (host of issue x host served first | key change x earlier rotation x token minted before / after / presented again) x router")
 }
